@@ -2166,9 +2166,9 @@ class Filter(Blockwise):
         if isinstance(self.predicate, Or):
             result = rewrite_filters(self.predicate)
             if result._name != self.predicate._name:
-                return type(parent)(
-                    type(self)(self.frame, result), *parent.operands[1:]
-                )
+                # replace this filter wherever it occurs among the parent's
+                # operands (it need not be the first one, e.g. ``x - x[p | q]``)
+                return parent.substitute(self, type(self)(self.frame, result))
 
         if isinstance(parent, (FilterAlign, Filter)) and not isinstance(
             self.frame, (FilterAlign, Filter)
